@@ -21,7 +21,9 @@ inductive HEv
 
 structure JState where
   arrived : List Nat := []
-  anyBlocking : Bool := false
+  pendingBlocking : List Nat := []   -- blocking requests that have arrived and whose handler has not returned yet
+  stretch : Nat := 0                 -- number of the current stretch of the history
+  stretchOf : List (Nat × Nat) := [] -- request ↦ stretch, for requests that arrived while no blocking handler was pending
   entered : List Nat := []        -- in order of entry
   left : List Nat := []
   answered : List Nat := []
@@ -29,14 +31,23 @@ structure JState where
   deriving Repr
 
 def jstep (s : JState) : HEv → Except String JState
-  | .arrive m b => .ok { s with arrived := s.arrived ++ [m], anyBlocking := s.anyBlocking || b }
+  | .arrive m b =>
+    -- "in arrival order as long as handlers return without blocking": the order claim covers every maximal stretch of
+    -- arrivals during which no blocking handler is pending; the blocking arrival that ends a stretch still belongs to it
+    let s1 := { s with arrived := s.arrived ++ [m],
+                       stretchOf := if s.pendingBlocking.isEmpty then (m, s.stretch) :: s.stretchOf else s.stretchOf }
+    .ok (if b then { s1 with pendingBlocking := m :: s1.pendingBlocking, stretch := s1.stretch + 1 } else s1)
   | .answered k => .ok (if s.closed then s else { s with answered := k :: s.answered })
   | .enter m =>
     if s.entered.contains m then .error "processed-twice"
     else if !s.arrived.contains m then .error "processed-unknown"
     else .ok { s with entered := s.entered ++ [m] }
   | .leave m =>
-    if !s.entered.contains m || s.left.contains m then .error "processed-twice" else .ok { s with left := m :: s.left }
+    if !s.entered.contains m || s.left.contains m then .error "processed-twice"
+    else
+      let pend := s.pendingBlocking.filter (· ≠ m)
+      .ok { s with left := m :: s.left, pendingBlocking := pend,
+                   stretch := if s.pendingBlocking.contains m && pend.isEmpty then s.stretch + 1 else s.stretch }
   | .nested k ok =>
     -- the peer answered while the connection was open, yet the call did not get its answer: the connection stalled
     if !ok && s.answered.contains k then .error "nested-stall" else .ok { s with answered := s.answered.filter (· ≠ k) }
@@ -53,8 +64,12 @@ def judge (hist : List HEv) (pending : Nat) : Option String :=
   match jrun {} hist with
   | .error c => some c
   | .ok s =>
-    -- in arrival order as long as handlers return without blocking
-    if !s.anyBlocking && s.entered ≠ s.arrived.filter (s.entered.contains ·) then some "out-of-order"
+    -- in arrival order as long as handlers return without blocking: within every stretch, the order of entry of the
+    -- requests that were entered is their order of arrival
+    let inStretch (k : Nat) (m : Nat) : Bool := s.stretchOf.contains (m, k)
+    let bad := (List.range (s.stretch + 1)).any fun k =>
+      s.entered.filter (inStretch k) ≠ (s.arrived.filter (inStretch k)).filter (s.entered.contains ·)
+    if bad then some "out-of-order"
     -- never dropped while the connection is open (everything was handed over and the connection is still open)
     else if !s.closed && pending = 0 && s.arrived.any (fun m => !s.entered.contains m) then some "dropped"
     else if !s.closed && pending > 0 then some "nested-stall"
